@@ -66,7 +66,15 @@ var triggers = []trigger{
 	{"l3-line-store-sharing", func(a *analysis, cfg sim.Config) bool {
 		return multiPar(cfg) && cfg.Variant == "mvp8-0" && a.l3StoreShared
 	}},
-	{"mvp60-memory-parallel", func(a *analysis, cfg sim.Config) bool { return multiPar(cfg) && cfg.Variant == "mvp6-0" && a.anyMem }},
+	{"mvp60-memory-parallel", func(a *analysis, cfg sim.Config) bool {
+		if !(multiPar(cfg) && cfg.Variant == "mvp6-0") {
+			return false
+		}
+		if os.Getenv("VERIF_STRICT_F05") != "" {
+			return a.anyMem // development aid: the conservative predicate
+		}
+		return a.memThenFlush
+	}},
 }
 
 // relaxF04: configurations on which conflicting accesses that both hit
@@ -103,6 +111,10 @@ type analysis struct {
 	r *ref.Result
 
 	anyMem bool
+	// a load or store followed, anywhere later in the run, by a taken conditional
+	// branch or by a jump: MVP-6.0's flush resets a unit that may still be
+	// running the older access
+	memThenFlush bool
 	// a value read from memory reaches a branch operand, an address, a jump base
 	// or a divisor: a wrong loaded value could then change the path, the
 	// addresses or raise an error
@@ -333,6 +345,7 @@ func analyse(c *gen.Case, r *ref.Result, storeSlow, loadSlow, prefSlow bool) *an
 	sinceLoad := false
 	calm := true // no possibly-missing access since the last drain
 	jumpSeen := map[int]bool{}
+	sawMem := false
 	residentBefore := map[int32]bool{}
 	loadedLines := map[int32]bool{}
 	brUncommitted := map[int][32]bool{}
@@ -436,6 +449,14 @@ func analyse(c *gen.Case, r *ref.Result, storeSlow, loadSlow, prefSlow bool) *an
 			// flushes like a mispredicted branch (older instructions complete first)
 			jumpSeen[s.Idx] = true
 			firstJump = true
+		}
+		if sawMem && ((s.CondBr && s.Taken) || s.Jump) {
+			// any jump: a known one can have left the 4-entry branch target buffer
+			// again, a jalr can return elsewhere than predicted
+			a.memThenFlush = true
+		}
+		if s.Load || s.Store {
+			sawMem = true
 		}
 		if firstJump && !(s.CondBr && s.Taken) {
 			sinceStoreMiss = false
